@@ -52,6 +52,8 @@ class Ctx(object):
               'digest': self.prog.digest}
         if self._cg is not None:
             st['call_sites'] = self._cg.stats()
+        if self.prog.relocated:
+            st['relocated_functions'] = dict(self.prog.relocated)
         return st
 
 
@@ -202,6 +204,9 @@ def main(argv):
               'model %s; %.1fs' % (
                   prop, tier, len(rec.obs), len(rec.obs) - len(rec.failed),
                   len(hits), len(new), ctx.prog.digest, wall))
+        for rq, aq in sorted(ctx.prog.relocated.items()):
+            print('  NOTE function %s is analysed as %s (moved/renamed)'
+                  % (aq, rq))
         for r, fl in sorted(rec.floors.items()):
             print('  %-8s instances %d (floor %d)' % (
                 r, rec.instances.get(r, 0), fl))
